@@ -153,6 +153,44 @@ func (a *FuncAn) condLins(cond ssa.Value, truth bool) []Lin {
 	return nil
 }
 
+// neqLins: `x != y` holds on the staying edge and the facts at the test already give x >= y (or x <= y): then
+// x - y - 1 >= 0 (resp. y - x - 1 >= 0). (`for end != 0 { end -= 2 }` with end >= 0.)
+func (a *FuncAn) neqLins(tb *ssa.BasicBlock, cond ssa.Value, truth bool) []Lin {
+	for {
+		u, ok := cond.(*ssa.UnOp)
+		if !ok || u.Op != token.NOT {
+			break
+		}
+		cond, truth = u.X, !truth
+	}
+	c, ok := cond.(*ssa.BinOp)
+	if !ok {
+		return nil
+	}
+	op := c.Op
+	if !truth {
+		op = negate(op)
+	}
+	if op != token.NEQ {
+		return nil
+	}
+	if _, _, isInt := a.E.intInfo(c.X.Type()); !isInt {
+		return nil
+	}
+	d := Add(a.Lin(c.X), a.Lin(c.Y), -1)
+	if a.in[tb] == nil {
+		return nil
+	}
+	var out []Lin
+	if a.Entails(tb, d) {
+		out = append(out, d.plus(-1))
+	}
+	if a.Entails(tb, Scale(d, -1)) {
+		out = append(out, Scale(d, -1).plus(-1))
+	}
+	return out
+}
+
 // LoopProgress checks every natural loop of f.
 func (e *Engine) LoopProgress(f *ssa.Function) []LoopRes {
 	a := e.analyzeFresh(f)
@@ -283,7 +321,7 @@ func (e *Engine) LoopProgress(f *ssa.Function) []LoopRes {
 					if !domAll {
 						continue
 					}
-					for _, nf := range a.condLins(iff.Cond, truth) {
+					for _, nf := range append(a.condLins(iff.Cond, truth), a.neqLins(tb, iff.Cond, truth)...) {
 						k := nf.Coef(pat)
 						if k*dir >= 0 {
 							continue
